@@ -12,10 +12,10 @@ Section Lift.
     match o with
     | Base o' => mon m o' out
     | During a b =>
-        match overlap a b with
-        | Some (_, q, ctr) =>
-            let '(m1, v1) := mon m a (filter (fun x => negb (of_call q ctr x)) out) in
-            let '(m2, v2) := mon m1 b (filter (of_call q ctr) out) in
+        match xsplit a b with
+        | Some P =>
+            let '(m1, v1) := mon m a (filter (fun x => negb (P x)) out) in
+            let '(m2, v2) := mon m1 b (filter P out) in
             (m2, v1 ++ v2)
         | None => (m, [])
         end
@@ -34,5 +34,5 @@ Definition xaccepted (j : list verdict) : bool := forallb (fun v => match v with
 Definition xscope {sst : Type} (scope : sst -> op -> sst) (s : sst) (o : xop) : sst :=
   match o with
   | Base o' => scope s o'
-  | During a b => match overlap a b with Some _ => scope (scope s a) b | None => s end
+  | During a b => match xsplit a b with Some _ => scope (scope s a) b | None => s end
   end.
